@@ -196,6 +196,21 @@ fn one<C: Suite>(ctx: &mut Ctx, g: u64, scheme: Scheme, len: usize, li: usize, e
         must_none(ctx, "wrong-scheme", &format!("own point labelled {}", o.name()), &wrap_sig::<C>(o, *sig.as_raw_value()));
     }
     must_none(ctx, "identity-sig", "identity", &wrap_sig::<C>(scheme, sig_id::<C>()));
+    // ... and a ciphertext BUILT to open under the identity signature: with sig = O the pairing
+    // value is the constant 1 of the target group, so anyone can seal around it; only the refusal
+    // of the identity signature keeps it closed
+    {
+        use blsful::inner_types::GroupEncoding;
+        let gt_one = <<C as Pairing>::PairingResult as Group>::identity().to_bytes();
+        let alpha = gen::random_scalar(&mut rng);
+        let crafted = refimpl::timelock_seal_with_k::<C::R>(gt_one.as_ref(), &msg, &alpha);
+        let c = TimeCryptCiphertext::<C> { u: super::util::lp::<C>(crafted.u), v: crafted.v, w: crafted.w.clone(), scheme: ls_ };
+        let o_sig = wrap_sig::<C>(scheme, sig_id::<C>());
+        if let Some(p) = open(ctx, &c, &o_sig) {
+            ctx.expect(p.is_none(), &format!("C13/altered-opens/{n}/{sn}/identity-sig"), || { let mut x = d("a ciphertext sealed around the pairing value 1 opens with the identity signature"); x["returned"] = json!(p.as_ref().map(|m| hx(m))); x });
+            ctx.hit(&format!("{n}/{sn}/identity-sig"), &[b"crafted K=1", &ctb]);
+        }
+    }
     must_none(ctx, "wrong-key", "-sig", &wrap_sig::<C>(scheme, -*sig.as_raw_value()));
     must_none(ctx, "wrong-key", "sig+G", &wrap_sig::<C>(scheme, *sig.as_raw_value() + <SigPt<C> as Group>::generator()));
 
